@@ -16,10 +16,25 @@ var (
 	verifSteps int64
 	verifLimit int64
 	verifAbort atomic.Bool
+
+	verifMaxIter  int64
+	verifMaxDepth int64
 )
 
 // VerifSetStepLimit resets the counter and sets the limit (0 = unlimited).
-func VerifSetStepLimit(n int64) { verifLimit = n; verifSteps = 0; verifAbort.Store(false) }
+func VerifSetStepLimit(n int64) {
+	verifLimit = n
+	verifSteps = 0
+	verifMaxIter = 0
+	verifMaxDepth = 0
+	verifAbort.Store(false)
+}
+
+// VerifProgress returns the largest iteration count of any loop activation and the
+// deepest call nesting seen since the last reset.
+func VerifProgress() (maxLoopIterations int64, maxCallDepth int64) {
+	return verifMaxIter, verifMaxDepth
+}
 
 // VerifAbort makes the run in progress panic with VerifBudgetExceeded at its next
 // instruction.
@@ -28,8 +43,19 @@ func VerifAbort() { verifAbort.Store(true) }
 // VerifSteps returns the number of VM instructions executed since the last reset.
 func VerifSteps() int64 { return verifSteps }
 
-func verifTick() {
+func verifTick(state *SearchEngineState) {
 	verifSteps++
+	// progress measures: a loop activation cannot run more iterations, and calls
+	// cannot nest deeper, than there are bytes to consume (plus one empty iteration /
+	// the non-recursive call depth) - unless something spins
+	if !state.loopStack.IsEmpty() {
+		if n := int64(state.loopStack.Peek().iterationStep); n > verifMaxIter {
+			verifMaxIter = n
+		}
+	}
+	if n := int64(state.callStack.Size()); n > verifMaxDepth {
+		verifMaxDepth = n
+	}
 	if verifLimit > 0 && verifSteps > verifLimit {
 		panic(VerifBudgetExceeded{})
 	}
